@@ -403,3 +403,43 @@ Example cut_once_example :
   let s2 := run s1' [Sent 20 1 1280 true 100000000] in
   cwnd s1' < cwnd s1 /\ cwnd (step s2 (Lost 1 1280 1280 0)) < cwnd s2 /\ cwnd (step s2 (Lost 0 1280 1280 0)) = cwnd s2.
 Proof. vm_compute. repeat split; reflexivity. Qed.
+
+(** The hypothesis [sent_above] is necessary: the ackhandler feeds packet numbers of three
+    packet number spaces into one sender. Handshake packets 0..5, then 1-RTT packet 0, then
+    the loss of Handshake packets 0, 1, 2 (one ACK, packet threshold): three reductions,
+    although all three packets were sent before the first one (FINDING sendmode/multi-cut-pn-spaces). *)
+Example pn_space_mixing_cuts_thrice :
+  let s := run (new_sender 1280 true 100000000)
+               [Sent 10 0 1280 true 100000000; Sent 20 1 1280 true 100000000; Sent 30 2 1280 true 100000000;
+                Sent 40 3 1280 true 100000000; Sent 50 4 1280 true 100000000; Sent 60 5 1280 true 100000000;
+                Sent 70 0 1280 true 100000000] in
+  let s1 := step s (Lost 0 1280 8960 0) in
+  let s2 := step s1 (Lost 1 1280 8960 0) in
+  let s3 := step s2 (Lost 2 1280 8960 0) in
+  cwnd s = 40960 /\ cwnd s1 = 28672 /\ cwnd s2 = 20070 /\ cwnd s3 = 14049.
+Proof. vm_compute. repeat split; reflexivity. Qed.
+
+(** ** Send gating (sentPacketHandler.SendMode) *)
+
+(** C20(d): SendMode answers "any" (new ack-eliciting data may be sent) only while the bytes
+    in flight are below the congestion window, the sender is not amplification-limited,
+    fewer than MaxOutstandingSentPackets packets are tracked, no probe packet is due and
+    the pacer has budget. (ptoMode only ever holds one of the three PTO modes.) *)
+Theorem send_gate : forall tracked amp probes pto bif cw bud,
+  pto <> sm_SendAny ->
+  send_mode (G tracked amp probes pto bif cw bud) = sm_SendAny ->
+  bif < cw /\ amp = false /\ tracked < sm_maxOutstandingSentPackets /\ tracked < sm_maxTrackedSentPackets /\
+  probes <= 0 /\ bud = true.
+Proof.
+  intros tracked amp probes pto bif cw bud Hpto H. unfold send_mode in H.
+  destruct amp; [discriminate|].
+  destruct (Z.geb_spec tracked sm_maxTrackedSentPackets); [discriminate|].
+  destruct (Z.gtb_spec probes 0); [contradiction|].
+  destruct (Z.ltb_spec bif cw); cbn [negb] in H; [|discriminate].
+  destruct (Z.geb_spec tracked sm_maxOutstandingSentPackets); [discriminate|].
+  destruct bud; cbn [negb] in H; [|discriminate].
+  repeat split; auto; lia.
+Qed.
+
+Example send_gate_nonvacuous : send_mode (G 3 false 0 0 2560 40960 true) = sm_SendAny /\ 0 <> sm_SendAny.
+Proof. vm_compute. split; [reflexivity|discriminate]. Qed.
